@@ -509,5 +509,40 @@ theorem sound_refDec (o : RefDecObs) (c : Clause) (h : refDecMonitor o = some c)
   · simp [refDecMonitor] at h
   · simp [refDecMonitor, hc, hw, hs] at h
 
+/-! ## what a retried request carries -/
+
+/-- the retried request carries the fulfilled responses and the request state intact, and the server's decoder reads
+them as the same keys, each with the kind of its response, and the same state -/
+def P_retryIntact (rs : List (Bytes × JVal)) (state : Bytes) (o : RetryObs) : Prop :=
+  respIntact rs o = true ∧ stateIntact state o = true ∧ backAlike rs state o = true
+
+theorem sound_retry (rs : List (Bytes × JVal)) (state : Bytes) (o : RetryObs) (c : Clause)
+    (h : retryMonitor rs state o = some c) : ¬ P_retryIntact rs state o := by
+  rintro ⟨h1, h2, h3⟩
+  simp [retryMonitor, h1, h2, h3] at h
+
+/-! ## `ToolAnnotations` -/
+
+/-- annotations come back as themselves, and the default encoding carries both boolean hints -/
+def P_annRoundtrip (compat : Bool) (a : ToolAnn) (o : AnnObs) : Prop :=
+  o.back = some a ∧ (compat = false → hintsPresent o.written = true)
+
+theorem sound_ann (compat : Bool) (a : ToolAnn) (o : AnnObs) (c : Clause) (h : annMonitor compat a o = some c) :
+    ¬ P_annRoundtrip compat a o := by
+  rintro ⟨h1, h2⟩
+  cases compat
+  · simp [annMonitor, h1, h2 rfl] at h
+  · simp [annMonitor, h1] at h
+
+/-! ## capabilities clones -/
+
+/-- the clone encodes like the original, no write through one shows in the other, and an extension added to the
+clone is stored there only -/
+def P_cloneIndependent (o : CloneObs) : Prop := o.same = true ∧ o.aliased = 0 ∧ o.ext = some true
+
+theorem sound_clone (o : CloneObs) (c : Clause) (h : cloneMonitor o = some c) : ¬ P_cloneIndependent o := by
+  rintro ⟨h1, h2, h3⟩
+  simp [cloneMonitor, h1, h2, h3] at h
+
 end Mon
 end Wire
